@@ -210,12 +210,13 @@ func snapCounts(e *opfix.ExecStart, snap interface{}) (string, string) {
 				}
 			}
 		}
-		if t == "Group" {
-			if sm, ok := cx["snapshots"].(map[string]interface{}); ok {
-				for bn, n := range want {
-					if l, has := sm[bn].([]interface{}); has && len(l) != n {
-						return "C02/group-snapshots", fmt.Sprintf("Group execution: snapshot of %s lists %d objects, %d existed", bn, len(l), n)
-					}
+		// every context that carries snapshots (Group, Event/Schedule with includeSnapshotsFrom): each list shows the
+		// objects existing when the execution started
+		if sm, ok := cx["snapshots"].(map[string]interface{}); ok {
+			for bn, lst := range sm {
+				l, _ := lst.([]interface{})
+				if n, has := want[bn]; has && len(l) != n {
+					return "C02/snapshots-not-current", fmt.Sprintf("%s context of binding %s: snapshot of %s lists %d objects, %d existed when the execution started", t, b, bn, len(l), n)
 				}
 			}
 		}
